@@ -300,6 +300,33 @@ fn main() {
             }
         }
     }
+    // a family made systematically (not left to the random grammar): end-anchored rules whose LAST word
+    // follows a wildcard, alone and next to a rule that competes for their other token; the URL
+    // carries the last word only as the tail of a longer alphanumeric run (`…/ads/topbanner`)
+    for w in ["banner", "js", "gif", "x1", "pixel"] {
+        for pre in ["ads", "foo/ads/", "/x.", "ads/", "a1-b/"] {
+            for glue in ["zz", "top", "9"] {
+                let rule = format!("{}*{}|", pre, w);
+                let url = format!("https://x.com/{}{}{}", pre.trim_start_matches('/'), glue, w);
+                let Ok(req) = adblock::request::Request::new(&url, "https://a.com/", "script") else { continue };
+                register_request(&req, &url, "https://a.com/", "script");
+                let word = pre.split(|c: char| !c.is_ascii_alphanumeric()).filter(|x| x.len() > 1).next().unwrap_or("ads");
+                for extra in [None, Some(format!("/{}/popup.", word)), Some(format!("@@/{}/zz9.", word))] {
+                    let mut lines = vec![rule.clone()];
+                    if let Some(x) = &extra { lines.push(x.clone()); }
+                    let rules: Vec<NetworkFilter> = lines.iter().filter_map(|l| parse_net(l)).collect();
+                    let e = build_engine(&lines, &[], false);
+                    let (got, want) = (engine_verdict(&e, &req), spec_verdict(&rules, &HashSet::new(), &req));
+                    sm.oracle_evaluations += 1;
+                    cs.stat("end_anchored_word_after_wildcard");
+                    if got != want {
+                        sm.failure(None, &format!("end-anchored rule whose last word follows a wildcard: engine {:?}, rule-by-rule {:?}", got, want),
+                            json!({"kind": "precedence", "rules": lines, "added": [], "tags": [], "url": url, "source": "https://a.com/", "type": "script"}));
+                    }
+                }
+            }
+        }
+    }
     // long URLs (up to and beyond the tokenizer's 127-token cut-off): rules without any index token
     // live in the fallback bucket, which every request probes whatever its length; the precedence
     // formula must hold there too
